@@ -36,6 +36,10 @@ def _mem(kind):
     from architecture_simulator.uarch.memory.memory import AddressingType, Memory
     from architecture_simulator.uarch.riscv.riscv_architectural_state import RiscvArchitecturalState
     from architecture_simulator.uarch.toy.toy_architectural_state import ToyArchitecturalState
+    if kind == "full":
+        # the same byte store without a lower bound (full-range, circular), as the repository's cache tests build it:
+        # every address is valid and accesses that straddle 2^32 wrap onto 0, 1, ...
+        return Memory(AddressingType.BYTE, 32, True)
     if kind == "riscv":
         m = RiscvArchitecturalState().memory  # the memory exactly as the simulator configures it
         if not isinstance(m, Memory):
@@ -46,12 +50,12 @@ def _mem(kind):
 
 def _fix(kind, n, value):
     import fixedint
-    bits = n * (8 if kind == "riscv" else 16)
+    bits = n * (16 if kind == "toy" else 8)
     return {8: fixedint.UInt8, 16: fixedint.UInt16, 32: fixedint.UInt32, 64: fixedint.UInt64}[bits](value)
 
 
 def _fn(mem, kind, rw, n):
-    bits = n * (8 if kind == "riscv" else 16)
+    bits = n * (16 if kind == "toy" else 8)
     name = {8: "byte", 16: "halfword", 32: "word", 64: "doubleword"}[bits]
     return getattr(mem, ("read_" if rw == "r" else "write_") + name)
 
@@ -60,7 +64,7 @@ def check(case, stats):
     from architecture_simulator.uarch.memory.memory import MemoryAddressError
     kind = case["kind"]
     mem = _mem(kind)
-    ref = riscv_store(mem.get_address_range().start) if kind == "riscv" else toy_store(len(mem.get_address_range()))
+    ref = toy_store(len(mem.get_address_range())) if kind == "toy" else riscv_store(mem.get_address_range().start)
     if kind == "riscv" and (mem.get_address_range().start != B or mem.get_address_range().stop != T):
         raise core.HarnessError("unexpected data address range %r" % (mem.get_address_range(),))
     writers: dict[int, tuple[int, int]] = {}  # cell -> (op index, width) of last writer
@@ -104,7 +108,7 @@ def check(case, stats):
                     # whether the valid cells of a rejected, partly valid write keep their old contents or take the new
                     # ones is unspecified - but each of them holds one of the two ("the most recently written" cell is
                     # either the earlier one or this one, never something else)
-                    cb = 8 if kind == "riscv" else 16
+                    cb = 16 if kind == "toy" else 8
                     for i, c in enumerate(ref.cells_of(addr, n)):
                         if ref.valid(c):
                             got = int(_fn(mem, kind, "r", 1)(c))
@@ -167,6 +171,11 @@ def _addr_riscv():
     )
 
 
+def _addr_full():
+    window = st.builds(lambda b, o: b + o, st.sampled_from([T - 4, -4, 0, T, 2 * T - 3, B]), st.integers(-4, 8))
+    return st.one_of(window, window, window, st.integers(-(2 ** 33), 2 ** 33))
+
+
 def _addr_toy():
     window = st.builds(lambda b, o: b + o, st.sampled_from([100, 4090, 0]), st.integers(0, 5))
     return st.one_of(
@@ -180,8 +189,8 @@ def _addr_toy():
 
 
 def _ops(kind):
-    if kind == "riscv":
-        widths, addr, cb = [1, 2, 4, 8], _addr_riscv(), 8
+    if kind in ("riscv", "full"):
+        widths, addr, cb = [1, 2, 4, 8], (_addr_riscv() if kind == "riscv" else _addr_full()), 8
     else:
         widths, addr, cb = [1, 2, 4], _addr_toy(), 16
 
@@ -198,8 +207,8 @@ def strategy(kind, max_ops):
     verbatim, or write exactly at / just before / at the end of an earlier read's span, optionally through an aliased
     spelling of the address (+- k * 2^32 for the wrapping RISC-V memory) - the shapes on which a stale cached read or a
     mis-invalidated span would show."""
-    widths = [1, 2, 4, 8] if kind == "riscv" else [1, 2, 4]
-    cb = 8 if kind == "riscv" else 16
+    widths = [1, 2, 4] if kind == "toy" else [1, 2, 4, 8]
+    cb = 16 if kind == "toy" else 8
     base_op = _ops(kind)
 
     @st.composite
@@ -220,7 +229,7 @@ def strategy(kind, max_ops):
                     wn = draw(st.sampled_from(widths))
                     a = {"w@start": ra, "w@end": ra + rn - 1, "w-before": ra - wn + 1, "w-inside": ra + draw(st.integers(0, rn - 1)),
                          "w-alias": ra + draw(st.integers(0, rn - 1))}[what]
-                    if what == "w-alias" and kind == "riscv":
+                    if what == "w-alias" and kind != "toy":
                         a += draw(st.sampled_from([T, -T, 2 * T]))
                     elif what == "w-alias":
                         a += draw(st.sampled_from([4096, -4096, 65536, -65536, T, -T]))   # no wrap-around: must be rejected
@@ -249,7 +258,7 @@ def corpus():
     ]
 
 
-WINDOWS = [("riscv", B), ("riscv", T - 2), ("riscv", -2), ("riscv", B + T + 6), ("toy", 4094), ("toy", 0), ("toy", 65536 + 4094)]
+WINDOWS = [("riscv", B), ("riscv", T - 2), ("riscv", -2), ("riscv", B + T + 6), ("toy", 4094), ("toy", 0), ("toy", 65536 + 4094), ("full", T - 2)]
 
 
 def _alphabet(kind, base, reduced):
@@ -263,7 +272,7 @@ def _alphabet(kind, base, reduced):
             ops.append(["w", n, base + o, None])
             ops.append(["r", n, base + o])
         ops.append(["w", widths[-1], base + o, 0])
-        if not reduced and kind == "riscv":
+        if not reduced and kind != "toy":
             ops.append(["r", 8, base + o])
     return ops
 
@@ -272,7 +281,7 @@ def exhaustive_cases(length, reduced, part, parts):
     import itertools
     k = 0
     for kind, base in WINDOWS:
-        cb = 1 if kind == "riscv" else 2
+        cb = 2 if kind == "toy" else 1
         alpha = _alphabet(kind, base, reduced)
         for seq in itertools.product(range(len(alpha)), repeat=length):
             k += 1
@@ -289,11 +298,11 @@ def exhaustive_cases(length, reduced, part, parts):
 
 def shards(tier, seed):
     if tier == "quick":
-        return ([{"kind": k, "n": 700, "ops": 40, "seed": seed * 1000 + i} for i, k in enumerate(["riscv", "toy", "riscv", "toy"])]
+        return ([{"kind": k, "n": 700, "ops": 40, "seed": seed * 1000 + i} for i, k in enumerate(["riscv", "toy", "riscv", "full"])]
                 + [{"what": "exh", "length": 3, "reduced": True, "part": i, "parts": 4} for i in range(4)])
     items = []
     for i in range(16):
-        items.append({"kind": "riscv" if i % 4 else "toy", "n": 4000, "ops": 60, "seed": seed * 1000 + i})
+        items.append({"kind": ["toy", "riscv", "riscv", "full"][i % 4], "n": 4000, "ops": 60, "seed": seed * 1000 + i})
     items += [{"what": "exh", "length": 3, "reduced": False, "part": i, "parts": 16} for i in range(16)]
     items += [{"what": "exh", "length": 4, "reduced": True, "part": i, "parts": 32} for i in range(32)]
     return items
